@@ -324,25 +324,30 @@ def is_subseq(small, big):
     return all(any(x == y for y in it) for x in small)
 
 
+MAX_WAVES = 4          # shrinking effort is bounded: a defect that hits most blocks must not stall the check
+MAX_LISTED = 40        # replay files written per run (every violating case is still counted in the evidence)
+
+
 def label(viol):
-    """{case id: minimal block text}.  The shortest unlabelled cases of every clause class are shrunk; a case that
-    contains an already found minimal block of its class (as a subsequence) takes that label (the label only
-    groups violations that TLC has already established, it decides nothing)."""
+    """{case id: minimal block text} for the cases that could be labelled within the effort bound.  The shortest
+    unlabelled cases of every clause class are shrunk; a case that contains an already found minimal block of its
+    class (as a subsequence) takes that label (the label only groups violations that TLC has already established,
+    it decides nothing)."""
     info = {c["id"]: (gen.tokens(c["_text"]), c["policy"], clause_class(v[1])) for c, v in viol}
     mins, lab = {}, {}
     bench = Bench()
     try:
-        while len(lab) < len(info):
+        for _wave in range(MAX_WAVES + 1):
             wave, per_class = [], {}
             for cid in sorted((i for i in info if i not in lab), key=lambda i: (len(info[i][0]), i)):
                 toks, p, cl = info[cid]
                 hit = [m for m in mins.get(cl, []) if is_subseq(m, toks)]
                 if hit:
                     lab[cid] = " ".join(min(hit, key=lambda m: (len(m), m)))
-                elif per_class.get(cl, 0) < 6:
+                elif per_class.get(cl, 0) < 6 and len(wave) < 24:
                     per_class[cl] = per_class.get(cl, 0) + 1
                     wave.append((cid, toks, p, cl))
-            if not wave:
+            if not wave or _wave == MAX_WAVES:
                 break
             for cid, toks in ddmin(bench, wave).items():
                 lab[cid] = " ".join(toks)
@@ -355,20 +360,23 @@ def label(viol):
 
 
 def settle(viol):
-    """one finding per (clause class, shrunk block); every violating case is accounted for"""
+    """one finding per (clause class, shrunk block); every violating case is accounted for in the summary, at most
+    MAX_LISTED findings are written as replay files (shrunk ones first, then the shortest unshrunk blocks)"""
     if not viol:
-        return {"known_hit": 0, "known_lines": [], "new": []}, []
+        return {"known_hit": 0, "known_lines": [], "new": []}, [], 0
     mins = label(viol)
     bykey = {}
     for c, v in viol:
-        key = clause_class(v[1]) + " | " + mins[c["id"]]
-        e = bykey.setdefault(key, {"case": c, "verdict": v, "policies": set(), "min": mins[c["id"]], "n": 0})
+        shrunk = c["id"] in mins
+        key = clause_class(v[1]) + " | " + (mins[c["id"]] if shrunk else "(not shrunk) " + c["_text"])
+        e = bykey.setdefault(key, {"case": c, "verdict": v, "policies": set(), "min": mins.get(c["id"]), "n": 0, "shrunk": shrunk})
         if len(c["block"]) < len(e["case"]["block"]):
             e["case"], e["verdict"] = c, v
         e["policies"].add(c["policy"])
         e["n"] += 1
+    order = sorted(bykey.items(), key=lambda ke: (not ke[1]["shrunk"], len(ke[1]["case"]["block"]), ke[0]))
     info, items = {}, []
-    for k, e in sorted(bykey.items()):
+    for k, e in order[:MAX_LISTED]:
         info[e["case"]["id"]] = (k, e)
         items.append((e["case"], ("violates", e["verdict"][1], e["verdict"][0])))
 
@@ -378,8 +386,15 @@ def settle(viol):
                 "position": e["verdict"][0], "minimal_block": e["min"], "subs": c["subs"], "cases_this_run": e["n"], "key": k}
     out = findings.settle("C14", items, describe)
     summary = [{"key": k, "policies": sorted(e["policies"]), "cases": e["n"], "example": e["case"]["_text"][:200],
-                "clause": e["verdict"][1]} for k, e in sorted(bykey.items())]
-    return out, summary
+                "clause": e["verdict"][1]} for k, e in order[:MAX_LISTED]]
+    rest = order[MAX_LISTED:]
+    if rest:
+        # never silently drop a violation: the overflow is itself a (new) violation with one example
+        k, e = rest[0]
+        out["new"].append(common.save_replay("C14", "overflow", {"property": "C14", "key": "overflow", "verdict": ["violates", e["verdict"][1], e["verdict"][0]],
+                                                                 "case": {"block": e["case"]["_text"], "policy": sorted(e["policies"]), "clause": e["verdict"][1],
+                                                                          "not_listed": len(rest), "more": [x[1]["case"]["_text"][:200] for x in rest[1:20]]}}))
+    return out, summary, len(rest)
 
 
 # ---------------------------------------------------------------------------------------------
@@ -428,7 +443,7 @@ def run(tier):
         raise common.MachineryError("the worker failed on generated input: %s" % cnt.get("worker_exc_sample"))
     sd = dict(zip(STAT_NAMES, stats))
     t1 = time.time()
-    out, summary = settle(viol)
+    out, summary, unlisted = settle(viol)
     t_shrink = time.time() - t1
     if min(by_policy.values()) == 0:
         raise common.MachineryError("vacuity guard: a split policy produced no case: %r" % by_policy)
@@ -444,7 +459,7 @@ def run(tier):
            "exhaustive_part": "all blocks up to length %d over the %d-instruction vocabulary (input depth <= 9)%s" % (
                3 if tier == "quick" else 4, len(gen_c14.SMALL), "" if tier == "quick" else ", all one-store long blocks of length 18..30"),
            "validator_counters": sd, "driver": cnt, "corpus": gstats, "cases_by_policy": by_policy,
-           "violating_cases": len(viol), "violation_classes": summary, "known_findings_hit": out["known_hit"],
+           "violating_cases": len(viol), "violation_classes": summary, "violation_classes_not_listed": unlisted, "known_findings_hit": out["known_hit"],
            "new_violations": len(out["new"]), "undecided": cnt["killed"] + cnt["frontend_exc"] + sd["replace_undecided"],
            "wall_split_s": {"generate": round(t_gen, 1), "drive": round(t_drive, 1), "validate": round(t_val, 1), "shrink": round(t_shrink, 1)},
            "tlc_jvms": st["jvms"] + gtlc["runs"]}
